@@ -24,6 +24,36 @@ def impl_verdict(version, mtype, action, payload):
     return ("accept", msg.payload)
 
 
+def impl_verdicts_public(rows, async_validation=False):
+    """The same verdicts through the public coroutine validate_payload() (what call() and
+    route_message() use), all in one event loop."""
+    import asyncio
+    import copy
+    import ocpp.messages as M
+    from ocpp.exceptions import OCPPError
+    from ocpp.messages import Call, CallResult, validate_payload
+
+    async def go():
+        out = []
+        for (version, mtype, action, kind, payload, tags) in rows:
+            p = copy.deepcopy(payload)
+            msg = Call("id", action, p) if mtype == "Call" else CallResult("id", p, action)
+            try:
+                await validate_payload(msg, version)
+                out.append(("accept", msg.payload))
+            except OCPPError as e:
+                out.append(("reject", e.code))
+            except Exception as e:  # noqa: BLE001
+                out.append(("crash", "%s: %s" % (type(e).__name__, str(e)[:200])))
+        return out
+    old = M.ASYNC_VALIDATION
+    M.ASYNC_VALIDATION = async_validation
+    try:
+        return asyncio.run(go())
+    finally:
+        M.ASYNC_VALIDATION = old
+
+
 _IND = {}
 
 
@@ -96,9 +126,17 @@ def run_correspondence(rep, rows, tag, prop_id, shard_size=250, check_codes=Fals
     (row, verdict) for further use."""
     results = []
     cases = []
-    for row in rows:
+    public = impl_verdicts_public(rows)
+    for ri, row in enumerate(rows):
         version, mtype, action, kind, inst, tags = row
         v = impl_verdict(version, mtype, action, inst)
+        if public[ri][:2] != v[:2] and not (v[0] == "accept" and public[ri][0] == "accept"):
+            rep.violation("%s:wrapper:%s:%s:%s:%s" % (prop_id, version, mtype, action, json.dumps(tags)),
+                          "%s %s %s: validate_payload() gives %r, _validate_payload() gives %r" % (
+                              version, mtype, action, public[ri][:2], v[:2] if v[0] != "accept" else ("accept",)),
+                          {"kind": "verdict", "version": version, "mtype": mtype, "action": action, "payload": inst,
+                           "built_to_violate": tags, "public": public[ri][:2]})
+            v = public[ri]
         results.append((row, v))
         cases.append(coq_case(version, mtype, action, inst, v))
         rep.count(json.dumps([version, mtype, action, inst], sort_keys=True, default=repr), nontrivial=True)
